@@ -133,7 +133,7 @@ func (b *Box) getOrCreateMessagesByTopic(topic []byte) *storedMessages {
 
 	messages, exists = b.pendingMessages[string(topic)]
 	if !exists {
-		messages = &storedMessages{messageCountPerSender: make(map[uint16]int)}
+		messages = &storedMessages{messageCountPerSender: make(map[uint16]int), logger: b.Logger}
 	}
 
 	b.pendingMessages[string(topic)] = messages
